@@ -18,7 +18,7 @@ import (
 	"github.com/theparanoids/ysshra/verifh"
 )
 
-type vbCase struct {
+type zvsBCase struct {
 	Tid     string  `json:"tid"`
 	Base    string  `json:"base"` // nanoseconds, decimal
 	Max     string  `json:"max"`
@@ -28,21 +28,21 @@ type vbCase struct {
 	Class   string  `json:"class"`   // e.g. base=zero mult=1e308 jit=0.2 (for the finding key)
 }
 
-type vbPlan struct {
-	Cases  []vbCase `json:"cases"`
-	Draws  int      `json:"draws"`
-	Random int      `json:"random"`
+type zvsBPlan struct {
+	Cases  []zvsBCase `json:"cases"`
+	Draws  int        `json:"draws"`
+	Random int        `json:"random"`
 }
 
-type vbVal struct {
+type zvsBVal struct {
 	Neg bool  `json:"neg"`
 	Big bool  `json:"big"`
 	Hi  int64 `json:"hi"`
 	Lo  int64 `json:"lo"`
 }
 
-func vbValOf(v int64) vbVal {
-	x := vbVal{Neg: v < 0}
+func zvsBValOf(v int64) zvsBVal {
+	x := zvsBVal{Neg: v < 0}
 	var m uint64
 	if v < 0 {
 		m = uint64(-(v + 1)) + 1
@@ -66,7 +66,7 @@ func TestVerifBackoff(t *testing.T) {
 	if err != nil {
 		t.Fatal(err)
 	}
-	var plan vbPlan
+	var plan zvsBPlan
 	if err := json.Unmarshal(raw, &plan); err != nil {
 		t.Fatal(err)
 	}
@@ -78,7 +78,7 @@ func TestVerifBackoff(t *testing.T) {
 		t.Fatal(err)
 	}
 	r := verifh.NewRand("backoff", 0)
-	cases := append([]vbCase{}, plan.Cases...)
+	cases := append([]zvsBCase{}, plan.Cases...)
 	for k := 0; k < plan.Random; k++ {
 		// any configuration with base <= max, multiplier >= 1, jitter in [0,1]; any attempt in 0..2^32-1
 		max := int64(1) + r.Int63n(int64(time.Hour))
@@ -120,7 +120,7 @@ func TestVerifBackoff(t *testing.T) {
 		} else if base == max {
 			bc = "max"
 		}
-		cases = append(cases, vbCase{Tid: fmt.Sprintf("rb%d", k), Base: strconv.FormatInt(base, 10), Max: strconv.FormatInt(max, 10), Mult: mult, Jit: jit,
+		cases = append(cases, zvsBCase{Tid: fmt.Sprintf("rb%d", k), Base: strconv.FormatInt(base, 10), Max: strconv.FormatInt(max, 10), Mult: mult, Jit: jit,
 			Attempt: strconv.FormatUint(att, 10), Class: fmt.Sprintf("base=%s mult=%s jit=%s", bc, strconv.FormatFloat(mult, 'g', 4, 64), strconv.FormatFloat(jit, 'g', 4, 64))})
 	}
 	n := 0
@@ -162,7 +162,7 @@ func TestVerifBackoff(t *testing.T) {
 					"raw": map[string]string{"min": strconv.FormatInt(lo, 10), "max": strconv.FormatInt(hi, 10), "bound": strconv.FormatInt(bound, 10),
 						"min_dur": time.Duration(lo).String(), "max_dur": time.Duration(hi).String()}}},
 			map[string]interface{}{"ev": "step", "tid": c.Tid, "e": map[string]interface{}{"op": "backoff",
-				"bo": map[string]interface{}{"att0": att == 0, "base": vbValOf(base), "min": vbValOf(lo), "max": vbValOf(hi), "bound": vbValOf(bound)}}},
+				"bo": map[string]interface{}{"att0": att == 0, "base": zvsBValOf(base), "min": zvsBValOf(lo), "max": zvsBValOf(hi), "bound": zvsBValOf(bound)}}},
 		})
 		n++
 	}
